@@ -246,10 +246,111 @@ let s_aout (o : z aout) = match o with
 let dump_arena (a : z arena) =
   pr "S3 mask=%s free=%s slots=%s\n" (s_mask a.mask) (s_free a.free) (s_list s_val a.store)
 
+(* ---------- Coq-syntax printers (extraction cross-check: the kernel re-evaluates the
+   same histories with vm_compute and must obtain the outputs the extracted code gave) ---------- *)
+let c_nat n = Printf.sprintf "%d%%nat" (int_of_nat n)
+let c_z z = Printf.sprintf "(%d)%%Z" (int_of_z z)
+let c_n n = Printf.sprintf "%d%%N" (int_of_n n)
+let c_key k = Printf.sprintf "(mkKey %s %s)" (c_z k.kz) (c_n k.kid)
+let c_opt f = function None -> "None" | Some x -> "(Some " ^ f x ^ ")"
+let c_list f l = "[" ^ String.concat "; " (List.map f l) ^ "]"
+let c_pair f g (a, b) = "(" ^ f a ^ ", " ^ g b ^ ")"
+let c_bool b = if b then "true" else "false"
+let c_kv = c_pair c_key c_z
+let c_bound = function Included z -> "(Included " ^ c_z z ^ ")" | Excluded z -> "(Excluded " ^ c_z z ^ ")" | Unbounded -> "Unbounded"
+let c_kind = function KItems -> "KItems" | KFast -> "KFast" | KKeys -> "KKeys" | KValues -> "KValues"
+let c_err = function KeyNotFound -> "KeyNotFound" | DataIntegrity c -> "(DataIntegrity " ^ c_nat c ^ ")"
+let c_op (o : z op) : string = match o with
+  | OInsert (k, v) -> Printf.sprintf "OInsert %s %s" (c_key k) (c_z v)
+  | ORemove z -> "ORemove " ^ c_z z
+  | OGet z -> "OGet " ^ c_z z
+  | OContains z -> "OContains " ^ c_z z
+  | OGetOrDefault (z, d) -> Printf.sprintf "OGetOrDefault %s %s" (c_z z) (c_z d)
+  | OLen -> "OLen" | OIsEmpty -> "OIsEmpty"
+  | OGetMutWrite (z, v) -> Printf.sprintf "OGetMutWrite %s %s" (c_z z) (c_z v)
+  | OClear -> "OClear"
+  | OIter (ks, st) -> Printf.sprintf "OIter %s %s" (c_list c_kind ks) (c_list (c_pair c_nat c_nat) st)
+  | OFirstLast -> "OFirstLast" | OSlices -> "OSlices"
+  | ORange (lo, hi) -> Printf.sprintf "ORange %s %s" (c_bound lo) (c_bound hi)
+  | OItemsRange (a, b) -> Printf.sprintf "OItemsRange %s %s" (c_opt c_z a) (c_opt c_z b)
+  | OFromPos (p, i, e) -> Printf.sprintf "OFromPos %s %s %s" (c_nat p) (c_nat i) (c_opt (c_pair c_z c_bool) e)
+  | OValidate -> "OValidate" | OIntrospect -> "OIntrospect"
+  | OTryGet z -> "OTryGet " ^ c_z z | OGetItem z -> "OGetItem " ^ c_z z
+  | OGetMany zs -> "OGetMany " ^ c_list c_z zs
+  | ORemoveItem z -> "ORemoveItem " ^ c_z z
+  | OTryInsert (k, v) -> Printf.sprintf "OTryInsert %s %s" (c_key k) (c_z v)
+  | OTryRemove z -> "OTryRemove " ^ c_z z
+  | OBatchInsert l -> "OBatchInsert " ^ c_list c_kv l
+let c_out (o : z out) : string = match o with
+  | UOpt o -> "UOpt " ^ c_opt c_z o
+  | UBool b -> "UBool " ^ c_bool b
+  | UNat n -> "UNat " ^ c_nat n
+  | UVal v -> "UVal " ^ c_z v
+  | UUnit -> "UUnit"
+  | UItems l -> "UItems " ^ c_list (c_opt (c_pair (c_opt c_key) (c_opt c_z))) l
+  | UList l -> "UList " ^ c_list c_kv l
+  | UFirstLast (f, l) -> Printf.sprintf "UFirstLast %s %s" (c_opt c_kv f) (c_opt c_kv l)
+  | USlices (i, f, k, v) -> Printf.sprintf "USlices %s %s %s %s" (c_list c_kv i) (c_list c_kv f) (c_list c_key k) (c_list c_z v)
+  | UValidate (a, b, c) -> Printf.sprintf "UValidate %s %s %s" (c_bool a) (c_opt c_nat b) (c_opt c_nat c)
+  | UIntro (lc, cn, ls, lr, al, ab, fl, fb) ->
+      Printf.sprintf "UIntro %s %s %s %s %s %s %s %s" (c_nat lc) (c_pair c_nat c_nat cn) (c_list c_nat ls) (c_bool lr)
+        (c_nat al) (c_nat ab) (c_nat fl) (c_nat fb)
+  | URes (r, e) -> Printf.sprintf "URes %s %s" (c_opt c_z r) (c_opt c_err e)
+  | UResOpt (r, e) -> Printf.sprintf "UResOpt %s %s" (c_opt (c_opt c_z) r) (c_opt c_err e)
+  | UResList (r, e) -> Printf.sprintf "UResList %s %s" (c_opt (c_list c_z) r) (c_opt c_err e)
+  | UResOptList (r, e) -> Printf.sprintf "UResOptList %s %s" (c_opt (c_list (c_opt c_z)) r) (c_opt c_err e)
+  | UPanic -> "UPanic" | UFuel -> "UFuel" | UUB -> "UUB"
+let c_aop (o : z aop) : string = match o with
+  | AAlloc x -> "@AAlloc Z " ^ c_z x | AFree h -> "@AFree Z " ^ c_n h | AFreeD h -> "@AFreeD Z " ^ c_n h
+  | AFreeNR h -> "@AFreeNR Z " ^ c_n h | AGet h -> "@AGet Z " ^ c_n h | ASet (h, x) -> Printf.sprintf "@ASet Z %s %s" (c_n h) (c_z x)
+  | AHas h -> "@AHas Z " ^ c_n h | ALen -> "@ALen Z" | AAllocCount -> "@AAllocCount Z" | AIsEmpty -> "@AIsEmpty Z"
+  | AFreeCount -> "@AFreeCount Z" | AStats -> "@AStats Z" | AClear -> "@AClear Z" | ACompact -> "@ACompact Z"
+let c_aout (o : z aout) : string = match o with
+  | OId h -> "@OId Z " ^ c_n h | OItem o -> "@OItem Z " ^ c_opt c_z o | OBool b -> "@OBool Z " ^ c_bool b
+  | ONat n -> "@ONat Z " ^ c_nat n | OStats (a, f) -> Printf.sprintf "@OStats Z %s %s" (c_nat a) (c_nat f)
+  | OUnit -> "@OUnit Z" | OPanic -> "@OPanic Z"
+
+(* --coq <ops file>: emit a .v file re-checking the extracted runs inside Coq *)
+let coq_mode path =
+  let ic = open_in path in
+  let hist = ref [] and cur = ref None in
+  (try while true do
+    let line = input_line ic in
+    let toks = split_on ' ' line in
+    (match toks with
+     | "H" :: hid :: target :: rest ->
+         (match !cur with Some c -> hist := c :: !hist | None -> ());
+         let cap = List.fold_left (fun a t ->
+             if String.length t > 4 && String.sub t 0 4 = "cap=" then ios (String.sub t 4 (String.length t - 4)) else a) 0 rest in
+         cur := Some (target, cap, [])
+     | [] -> ()
+     | "DMG" :: _ -> (match !cur with Some c -> hist := c :: !hist; cur := None | None -> ())
+     | _ -> (match !cur with Some (t, c, l) -> cur := Some (t, c, toks :: l) | None -> ()))
+  done with End_of_file -> ());
+  (match !cur with Some c -> hist := c :: !hist | None -> ());
+  print_string "From BPT Require Import Common.Base Rust.Arena Rust.ArenaSpec Rust.Tree Rust.Heap Rust.Readers Rust.Run.\nOpen Scope Z_scope.\n";
+  List.iteri (fun i (target, cap, rl) ->
+    let lines = List.rev rl in
+    if target = "rust" then begin
+      match b_new (nat_of_int cap) with
+      | None -> ()
+      | Some b0 ->
+        let ops = List.filter_map parse_op lines in
+        let (_, outs) = run b0 ops in
+        Printf.printf "Example xc_%d : match b_new Z %d%%nat with Some b0 => snd (run b0 %s) | None => [] end = %s.\nProof. vm_compute. reflexivity. Qed.\n"
+          i cap (c_list c_op ops) (c_list c_out outs)
+    end else if target = "arena" then begin
+      let ops = List.filter_map (function "A" :: t -> parse_aop t | _ -> None) lines in
+      let (_, outs) = arun Z0 a_new ops in
+      Printf.printf "Example xa_%d : snd (arun 0 (@a_new Z) %s) = %s.\nProof. vm_compute. reflexivity. Qed.\n"
+        i (c_list c_aop ops) (c_list c_aout outs)
+    end) (List.rev !hist)
+
 (* ---------- main loop ---------- *)
 type st = Dead | Tree of z bstate | Heap of z heap | Arena of z arena
 
 let () =
+  if Array.length Sys.argv > 2 && Sys.argv.(1) = "--coq" then (coq_mode Sys.argv.(2); exit 0);
   let ic = if Array.length Sys.argv > 1 then open_in Sys.argv.(1) else stdin in
   let state = ref Dead in
   let step_no = ref 0 in
